@@ -44,7 +44,9 @@ static void run_task(const TaskSpec& t, IWorld* share_owner, Scheduler* sched, i
             S->ctx.sched = sched;
             S->ctx.yield_fn = &yield_trampoline;
         }
-        S->construct_solver();
+        // PartialSVDSolver tasks run through the generic solver interface (Session::construct_solver would build the C16 one)
+        if (t.w.family == F_SVD) S->solver = S->world->make_solver();
+        else S->construct_solver();
     }
     catch (...)
     {
